@@ -1179,4 +1179,41 @@ theorem joinPath_inj (dir a b : String) (h : joinPath dir a = joinPath dir b) : 
   · exact h
   · exact append_left_cancel _ _ _ h
 
+/-! ## Readable initializers, with no condition on where external tensors live -/
+
+/-- Tensor object `t` denotes `b` on `fs`: in memory, or a valid external tensor whose bytes are readable (wherever its
+file is). -/
+def Readable (fs : FS) (t : TRef) (b : Bytes) : Prop :=
+  match t with
+  | .mem b' _ => b' = b
+  | .ext f off len v => v = true ∧ FS.read fs f off len = some b
+
+/-- Initializer with `const_value` `c` is initialized with a readable tensor denoting `b`. -/
+def InitR (fs : FS) (heap : List TRef) (c : Option Nat) (b : Bytes) : Prop :=
+  ∃ id t, c = some id ∧ heap[id]? = some t ∧ Readable fs t b
+
+/-- When the second guard has nothing to refuse, readable initializers are usable ones. -/
+theorem initOK_of_readable (dest : String) (fs : FS) (heap : List TRef) :
+    ∀ {cv bs}, All2 (InitR fs heap) cv bs → destHits dest heap cv = [] → All2 (InitOK dest fs heap) cv bs
+  | _, _, .nil, _ => .nil
+  | _, _, .cons (as := cv) hr ht, hd => by
+    obtain ⟨id, t, rfl, h1, h2⟩ := hr
+    unfold destHits at hd
+    simp only [List.filterMap_cons, h1] at hd
+    cases t with
+    | mem b' np =>
+      refine .cons ⟨id, _, rfl, h1, h2⟩ (initOK_of_readable dest fs heap ht ?_)
+      simpa [destHits] using hd
+    | ext f o l v =>
+      by_cases hf : f = dest
+      · simp [hf] at hd
+      · simp only [hf, if_false] at hd
+        refine .cons ⟨id, _, rfl, h1, ⟨h2.1, hf, h2.2⟩⟩ (initOK_of_readable dest fs heap ht ?_)
+        simpa [destHits] using hd
+
+theorem initR_none (fs : FS) (heap : List TRef) : ∀ {cv bs}, All2 (InitR fs heap) cv bs → ∀ c ∈ cv, c ≠ none := by
+  intro cv bs h c hc
+  obtain ⟨b, id, t, rfl, _, _⟩ := all2_mem_left h c hc
+  simp
+
 end OV.C20
